@@ -76,6 +76,26 @@ class TracedFile:
         self._seam.event(self._fid, "flush", None)
         return self._real.flush()
 
+    def truncate(self, size=None):
+        # (not used by the library as shipped; a transparent seam still has to offer what a file offers)
+        if size is None:
+            size = self._real.tell()
+        if "r" not in self.mode:
+            self._seam.event(self._fid, "truncate", size)
+        return self._real.truncate(size)
+
+    def fileno(self):
+        return self._real.fileno()
+
+    def writable(self):
+        return self._real.writable()
+
+    def readable(self):
+        return self._real.readable()
+
+    def seekable(self):
+        return self._real.seekable()
+
     # -- reading side ---------------------------------------------------------
     def tell(self):
         return self._real.tell()
@@ -197,6 +217,11 @@ def image_after(ops, n_ops: int, torn_bytes: int | None = None) -> bytes:
             do_write(arg.encode("utf-8"))
         elif kind == "seek":
             pos = arg
+        elif kind == "truncate":
+            if arg < len(buf):
+                del buf[arg:]
+            else:
+                buf.extend(b"\0" * (arg - len(buf)))
     if torn_bytes is not None and n_ops < len(ops):
         kind, arg = ops[n_ops]
         if kind != "write":
